@@ -31,4 +31,7 @@ def run(ctx):
     vlib.validate_trace(ctx, "FactsTrace", t, "index sites: oligo, oligocgr, coverage bins, counter partitions", "idx")
     with open(t) as f:
         ctx.sample({"stage": "idx", "event": json.loads(f.readline())})
+    al = ctx.path("aligned_rows.ndjson")
+    vlib.kvh(["trace", "oligobig", ctx.seed, 0, ctx.rundir], out=al)
+    vlib.validate_trace(ctx, "FactsTrace", al, "20 records of exactly 64 KiB each (every header on a 64 KiB boundary, one on 1 MiB): every row judged, both writers", "obig")
     ctx.exhaustive = False
